@@ -9,8 +9,6 @@ import (
 	"strings"
 	"time"
 
-	"github.com/mimecast/dtail/internal/source"
-	"github.com/mimecast/dtail/verifharness/internal/dt"
 	"github.com/mimecast/dtail/verifharness/internal/mq"
 	"github.com/mimecast/dtail/verifharness/internal/vlib"
 )
@@ -41,17 +39,6 @@ type c05Meta struct {
 
 func init() {
 	Drivers["C05"] = c05
-	Children["c05"] = c05Child
-}
-
-func c05Child(args []string) int {
-	dir := args[0]
-	dt.Init(source.Client, "none", "none", "error", true)
-	return vlib.BatchMainPar(dir, 24, func(i int, raw json.RawMessage) interface{} {
-		var c c05Case
-		json.Unmarshal(raw, &c)
-		return c05Result{Central: runPipeline(c.Central), Parted: runPipeline(c.Parted)}
-	})
 }
 
 // c05Gen builds one case: table, query, central and partitioned layout.
